@@ -78,7 +78,7 @@ structure InvL (N : Nat) (s : State) : Prop where
                  es <+: (s.g.termLog t).drop (prev + 1) ∧ 0 < t
   msg_snap   : ∀ t l d k kt c pfx, Msg.snapshot t l d k kt c pfx ∈ s.msgs →
                  k < (s.g.termLog t).length ∧ pfx = (s.g.termLog t).take (k + 1) ∧
-                 kt = termAt (s.g.termLog t) k ∧ k ≤ c ∧ 0 < t
+                 kt = termAt (s.g.termLog t) k ∧ 0 < t
   msg_reqVote_le : ∀ t c d li lt, Msg.reqVote t c d li lt ∈ s.msgs → t ≤ (s.nodes c).term
   msg_reqVote : ∀ t c d li lt, Msg.reqVote t c d li lt ∈ s.msgs →
                  (s.nodes c).role = .candidate → (s.nodes c).term = t →
@@ -110,7 +110,8 @@ structure InvS (N : Nat) (s : State) : Prop where
   msg_cmt_a  : ∀ t l d prev pt es c, Msg.append t l d prev pt es c ∈ s.msgs →
                  c < (s.g.termLog t).length ∧ Cmt N s t ((s.g.termLog t).take (c + 1))
   msg_cmt_s  : ∀ t l d k kt c pfx, Msg.snapshot t l d k kt c pfx ∈ s.msgs →
-                 c < (s.g.termLog t).length ∧ Cmt N s t ((s.g.termLog t).take (c + 1))
+                 c < (s.g.termLog t).length ∧ Cmt N s t ((s.g.termLog t).take (c + 1)) ∧
+                 Cmt N s t ((s.g.termLog t).take (k + 1))
 
 /-- The full inductive invariant. -/
 structure Inv (N : Nat) (s : State) : Prop where
